@@ -10,6 +10,20 @@ DIGEXEC = os.path.join(VERIF, "harness", "digexec")
 EXTRA_KEYS = ("panicMsg", "dotText", "fatalMsg")
 
 
+def _big_stack():
+    """the model driver recurses as deep as the graph or the dependency chain it is given: a roomy stack (1 GiB, or
+    whatever the hard limit allows) instead of the default 8 MiB"""
+    import resource
+    soft, hard = resource.getrlimit(resource.RLIMIT_STACK)
+    want = 1 << 30
+    if hard != resource.RLIM_INFINITY:
+        want = min(want, hard)
+    try:
+        resource.setrlimit(resource.RLIMIT_STACK, (want, hard))
+    except (ValueError, OSError):
+        pass
+
+
 class Proc:
     def __init__(self, argv):
         self.argv = argv
@@ -17,7 +31,7 @@ class Proc:
 
     def start(self):
         self.p = subprocess.Popen(self.argv, stdin=subprocess.PIPE, stdout=subprocess.PIPE,
-                                  stderr=subprocess.DEVNULL, bufsize=0)
+                                  stderr=subprocess.DEVNULL, bufsize=0, preexec_fn=_big_stack)
 
     def ask(self, line):
         if self.p is None or self.p.poll() is not None:
